@@ -291,6 +291,8 @@ def vec_nodes(n=3, full=True):
             # quadratic forms whose matrix has another dtype (boolean adjacency mask, unsigned integers)
             ("quad", v, [[float((i <= j) or (i == n - 1 and j == 0)) for j in range(n)] for i in range(n)], "bool"),
             ("quad", v, [[float((i * 2 + j) % 3) for j in range(n)] for i in range(n)], "uint8"),
+            # a small SIGNED integer matrix whose entries are large for its type (Q + Q.T must not wrap around)
+            ("quad", v, [[float(100 if i == j else (3 if i < j else 1)) for j in range(n)] for i in range(n)], "int8"),
             # x.dot(Q @ y) where x and y are different views that PRINT alike (quadratic-form pattern match)
             ("dot", ("slice", v, 0, n, None), ("matvec", [[(("sym", "a11") if (i, j) == (1, 1) else float(((i * 2 + j * 3) % 5) - 2)) for j in range(n)] for i in range(n)], ("slice", v, None, None, -1))),
             ("dot", ("mrowpart", ("mat", "R", 1, 4), 0, (0, 2, None)), ("matvec", [[1.0, 2.0], [("sym", "a11"), 4.0]], ("mrowpart", ("mat", "R", 1, 4), 0, (2, 4, None)))),
